@@ -6,7 +6,7 @@ from .. import replay as rp
 from .setops import bits_for, fnr, decode_ab, prog_ab, built
 
 BOUNDS = {
-    'quick': {'alternatives_per_operand': '1..2', 'identifier_list_len': 1, 'versions': 'rank mode: any total preorder on the bound/probe versions; concrete mode: u64 components <= MAX_SAFE_INTEGER'},
+    'quick': {'alternatives_per_operand': '1..2', 'hybrid_groups': 'identifiers abstract (any length), fields major/minor/patch full u64 <= MAX_SAFE_INTEGER for operand products < 4 alternatives, < 8 for larger products', 'identifier_list_len': 1, 'versions': 'rank mode: any total preorder on the bound/probe versions; concrete mode: u64 components <= MAX_SAFE_INTEGER'},
     'thorough': {'alternatives_per_operand': '1..3', 'identifier_list_len': 2, 'versions': 'same'},
 }
 OUTSIDE = ['ranges with more alternatives than the bound', 'identifier lists longer than the bound', 'contents of alphanumeric identifiers (abstract ordered tokens)',
@@ -22,9 +22,11 @@ def groups(tier):
     for ka in range(1, K + 1):
         for kb in range(1, K + 1):
             gs.append({'name': 'rank-%dx%d' % (ka, kb), 'fn': rank_group, 'args': {'ka': ka, 'kb': kb}})
-    conc = [(1, 1)] if tier == 'quick' else [(1, 1), (2, 1), (1, 2), (2, 2)]
-    for ka, kb in conc:
-        gs.append({'name': 'pre-%dx%d' % (ka, kb), 'fn': pre_group, 'args': {'ka': ka, 'kb': kb, 'L': 1 if tier == 'quick' else 2}})
+    for ka in range(1, K + 1):
+        for kb in range(1, K + 1):
+            gs.append({'name': 'pre-hybrid-%dx%d' % (ka, kb), 'fn': pre_group, 'args': {'ka': ka, 'kb': kb, 'L': 1, 'hybrid': True}})
+    if tier != 'quick':
+        gs.append({'name': 'pre-concrete-1x1', 'fn': pre_group, 'args': {'ka': 1, 'kb': 1, 'L': 2, 'hybrid': False}})
     return gs
 
 
@@ -88,9 +90,9 @@ def rank_group(s, ka, kb):
     s.bounds_ok(h, 'intersect %dx%d' % (ka, kb), [])
 
 
-def pre_group(s, ka, kb, L):
+def pre_group(s, ka, kb, L, hybrid=True):
     """prerelease clauses through satisfies (concrete order, real gate)"""
-    h = s.harness(L=L, cap_bs=max(ka * kb, 1))
+    h = s.harness(L=L, cap_bs=max(ka * kb, 1), rank_bits=(bits_for(2 * (ka + kb) + 1) if hybrid else 0), hybrid=hybrid, field_bits=(3 if hybrid and ka * kb >= 4 else 0))
     A, Abs = h.range_('A', ka, allow_any=True)
     B, Bbs = h.range_('B', kb, allow_any=True)
     v = h.version('v')
